@@ -6,23 +6,9 @@ use std::ops::Bound;
 use trustfall_core::interpreter::CandidateValue;
 use trustfall_core::ir::FieldValue;
 
-use crate::val::{val_cmp, val_eq, Val};
+use crate::val::{val_eq, Val};
 
-/// lexicographic order on lists of comparable scalars; None if some pair is incomparable
-pub fn val_cmp_deep(a: &Val, b: &Val) -> Option<Ordering> {
-    match (a, b) {
-        (Val::List(x), Val::List(y)) => {
-            for (p, q) in x.iter().zip(y.iter()) {
-                match val_cmp_deep(p, q)? {
-                    Ordering::Equal => {}
-                    o => return Some(o),
-                }
-            }
-            Some(x.len().cmp(&y.len()))
-        }
-        _ => val_cmp(a, b),
-    }
-}
+pub use crate::val::val_cmp_lex as val_cmp_deep;
 
 /// Is `v` a member of the candidate? `None` = cannot be decided by the model (incomparable kinds):
 /// callers must then refrain from pruning.
